@@ -7,7 +7,9 @@ build_params); so a change of meaning in those bodies changes Gen/SigCode.v and 
 Fail-closed: any statement, expression, call or attribute outside the recognised shapes aborts with `unrecognised shape`.
 
 Besides transcription the translator
-  * inlines calls of local closures (nested `def`s): the arguments are let-bound to the renamed parameters first
+  * inlines calls of local closures (nested `def`s) and of module-level helper functions of astbuilder.py (these see
+    no locals of the caller; `x = helper(..)` where the helper builds a list by append and returns it makes x that
+    list; a generator may take arguments): the arguments are let-bound to the renamed parameters first
     (call by value), then the body follows; a closure that returns a value becomes an expression (ELet/EAssert/EIf);
     a closure with `yield` is a generator and its call is EProduced of its body;
   * reads `x = []` / `x: T = {}` followed only by `x.append(e)` / `x[k] = v` (possibly inside inlined closures and
@@ -15,6 +17,8 @@ Besides transcription the translator
   * reads `if v:` on an Optional[ast.AST] local as `v is not None` (AST nodes are truthy);
   * reads `getattr(a, 'posonlyargs', ())` and `try: <stmts> except AttributeError: pass` as the plain attribute access /
     statements (Python >= 3.8: the attribute exists);
+  * reads list(l) as l, chain(a, b, ..) as a + b + .., zip(l, repeat(K)) as [(x, K) for x in l] (iterables are lists in
+    the language; K is a parameter kind constant);
   * drops `v.arg = epydoc2stan.VariableArgument(v.arg)` / KeywordArgument (str subclasses, equal to the string) and
     the `ctx=` argument of the formatter classes, `cast(T, e)` is e, assert messages are dropped.
 Locals assigned inside an `if` / `for` body are not visible after it (using one there aborts the translation).
@@ -73,8 +77,11 @@ class Closure:
         own = [s for s in body]
         if contains(own, (ast.Yield, ast.YieldFrom)):
             self.kind = 'gen'
-            if self.params:
-                bad('generator with parameters', fn)
+        elif (own and isinstance(own[-1], ast.Return) and isinstance(own[-1].value, ast.Name)
+              and any(isinstance(x, (ast.Assign, ast.AnnAssign)) and isinstance(x.value, ast.List) and not x.value.elts
+                      and isinstance(x.targets[0] if isinstance(x, ast.Assign) else x.target, ast.Name)
+                      and (x.targets[0] if isinstance(x, ast.Assign) else x.target).id == own[-1].value.id for x in own)):
+            self.kind = 'listfn'        # builds a list by append and returns it
         elif any(isinstance(x, ast.Return) and x.value is not None for s in own for x in ast.walk(s)):
             self.kind = 'expr'
         else:
@@ -82,6 +89,7 @@ class Closure:
         self.body = body
 
 
+MODULE_FUNCS = {}
 BODIES = []          # loop bodies, hoisted into named definitions sig_body_<k> (see generate())
 MAX_BODIES = 16
 
@@ -99,6 +107,15 @@ class Tr:
         self.vars = {}              # ir name -> index
         self.acc = None             # the accumulator local of the region being translated
         self.ninline = 0
+        self.module_funcs = MODULE_FUNCS      # module-level helper functions (inlined like local closures; they see no locals)
+
+    def closure_of(self, scope, name):
+        ent = scope.get(name)
+        if ent is not None:
+            return ent[1] if ent[0] == 'closure' else None
+        if name in self.module_funcs:
+            return Closure(self.module_funcs[name], {})
+        return None
 
     # ---- variables ------------------------------------------------------------------------------------------------
     def newvar(self, pyname, tag=''):
@@ -151,6 +168,8 @@ class Tr:
                 return 'EText [%s]%%N' % '; '.join(str(ord(c)) for c in e.value), 'str'
             bad('constant', e)
         if isinstance(e, ast.Name):
+            if e.id == 'func' and e.id not in scope:
+                return 'ENone', 'ctx'          # the Function being built: only ever passed on as ctx= of a formatter
             ent = self.lookup(scope, e.id, e)
             if ent[0] != 'var':
                 bad('%r used as a value' % e.id, e)
@@ -266,6 +285,8 @@ class Tr:
 
     def cond(self, e, scope):
         if isinstance(e, ast.Name):
+            if e.id == 'func' and e.id not in scope:
+                return 'ENone', 'ctx'          # the Function being built: only ever passed on as ctx= of a formatter
             ent = self.lookup(scope, e.id, e)
             if ent[0] == 'var' and ent[2] in OPTIONAL:
                 return 'ENot (EIsNone (EVar %s))' % ent[1]           # `if node:` on an optional AST node
@@ -296,6 +317,33 @@ class Tr:
                 if ts != 'int':
                     bad('start of enumerate()', e)
                 return 'EEnumerate (%s) (%s)' % (a, s), ('list', ('tuple', 'int', t[1]))
+            if n == 'list' and len(e.args) == 1 and not kw:
+                a, t = self.expr(e.args[0], scope)
+                if not (isinstance(t, tuple) and t[0] == 'list'):
+                    bad('list() of a value of type %r' % (t,), e)
+                return a, t                                     # iterables are lists here
+            if n == 'chain' and e.args and not kw:
+                parts = [self.expr(x, scope) for x in e.args]
+                t0 = parts[0][1]
+                if not (isinstance(t0, tuple) and t0[0] == 'list') or any(t != t0 for _, t in parts):
+                    bad('chain() arguments', e)
+                ir = parts[-1][0]
+                for a, _ in reversed(parts[:-1]):
+                    ir = 'EAdd (%s) (%s)' % (a, ir)
+                return ir, t0
+            if (n == 'zip' and len(e.args) == 2 and not kw and isinstance(e.args[1], ast.Call)
+                    and isinstance(e.args[1].func, ast.Name) and e.args[1].func.id == 'repeat'
+                    and len(e.args[1].args) == 1 and not e.args[1].keywords):
+                # zip(l, repeat(c)) == [(x, c) for x in l]   (c is evaluated once, before the loop: it is a constant here)
+                a, ta = self.expr(e.args[0], scope)
+                if not (isinstance(ta, tuple) and ta[0] == 'list'):
+                    bad('zip() arguments', e)
+                c, tc = self.expr(e.args[1].args[0], scope)
+                if tc != 'kind':
+                    bad('repeat() of something other than a parameter kind', e)
+                v = self.newvar('zipped')
+                return ('EListComp (PVar %s) (%s) (ETuple (XCons (EVar %s) (XCons (%s) XNil)))' % (v, a, v, c),
+                        ('list', ('tuple', ta[1], tc)))
             if n == 'zip' and len(e.args) == 2 and not kw:
                 a, ta = self.expr(e.args[0], scope)
                 b, tb = self.expr(e.args[1], scope)
@@ -312,7 +360,7 @@ class Tr:
             if n == 'cast' and len(e.args) == 2 and not kw:
                 return self.expr(e.args[1], scope)
             if n in ('_ValueFormatter', '_AnnotationValueFormatter') and len(e.args) == 1 and set(kw) == {'ctx'}:
-                if not (isinstance(kw['ctx'], ast.Name) and kw['ctx'].id == 'func'):
+                if not (isinstance(kw['ctx'], ast.Name) and self.expr(kw['ctx'], scope)[1] == 'ctx'):
                     bad('ctx= of a formatter', e)
                 a, t = self.expr(e.args[0], scope)
                 if t not in ('expr', 'optexpr', 'none'):      # 'none': a dead branch after inlining (default is None)
@@ -333,9 +381,8 @@ class Tr:
                 if t not in ('expr', 'optexpr'):
                     bad('unstring_annotation of a value of type %r' % (t,), e)
                 return 'EUnstring (%s)' % a, 'expr'
-            ent = scope.get(n)
-            if ent is not None and ent[0] == 'closure':
-                c = ent[1]
+            c = self.closure_of(scope, n)
+            if c is not None:
                 if kw:
                     bad('keyword arguments to a local function', e)
                 if c.kind == 'gen':
@@ -366,11 +413,14 @@ class Tr:
 
     def source(self, it, scope):
         """the iterable of a for loop / comprehension-as-loop: (ir source, element type)"""
-        if (isinstance(it, ast.Call) and isinstance(it.func, ast.Name) and scope.get(it.func.id, ('?',))[0] == 'closure'
-                and scope[it.func.id][1].kind == 'gen'):
-            if it.args or it.keywords:
-                bad('arguments to a local generator', it)
-            ir, ty = self.generator(scope[it.func.id][1])
+        c = self.closure_of(scope, it.func.id) if isinstance(it, ast.Call) and isinstance(it.func, ast.Name) else None
+        if c is not None and c.kind == 'gen':
+            if it.keywords:
+                bad('keyword arguments to a local generator', it)
+            lets, sc, _tag = self.bind_args(c, it, scope)
+            ir, ty = self.generator(c, sc)
+            for v, a in reversed(lets):
+                ir = 'QLet (PVar %s) (%s) (%s)' % (v, a, ir)
             return 'SGen (%s)' % ir, ty
         src, ts = self.expr(it, scope)
         if not (isinstance(ts, tuple) and ts[0] == 'list'):
@@ -443,13 +493,13 @@ class Tr:
         ir, t = self.expr(s.value, scope)
         return tgt.id, ir, t
 
-    def generator(self, c):
+    def generator(self, c, sc=None):
         saved = self.acc
         self.acc = None
         self.ninline += 1
         tag = '%s%d_' % (c.fn.name, self.ninline)
         types = []
-        ir = self.prods(c.body, dict(c.scope), lambda sc: 'QNil', tag, types, in_gen=True)
+        ir = self.prods(c.body, dict(c.scope) if sc is None else sc, lambda _sc: 'QNil', tag, types, in_gen=True)
         self.acc = saved
         if not types:
             bad('generator that yields nothing', c.fn)
@@ -488,11 +538,32 @@ class Tr:
             if not ok:
                 bad('try statement', s)
             return self.prods(s.body + rest, scope, cont, tag, types, in_gen)
+        if isinstance(s, ast.Return):
+            # `return <the list built>` at the end of an inlined helper
+            if (not rest and isinstance(s.value, ast.Name) and self.acc == (s.value.id, 'list') and not in_gen
+                    and scope.get(s.value.id) == ('acc',)):
+                return cont(scope)
+            bad('return', s)
         if isinstance(s, (ast.Assign, ast.AnnAssign)):
             tgt = s.targets[0] if isinstance(s, ast.Assign) else s.target
             if isinstance(s, ast.Assign) and len(s.targets) != 1:
                 bad('multiple assignment', s)
             v = s.value
+            if (isinstance(tgt, ast.Name) and isinstance(v, ast.Call) and isinstance(v.func, ast.Name)
+                    and self.closure_of(scope, v.func.id) is not None and self.closure_of(scope, v.func.id).kind == 'listfn'):
+                # x = helper(..): the helper builds a list by append and returns it -> x is that accumulator
+                c = self.closure_of(scope, v.func.id)
+                if in_gen or self.acc is not None or tgt.id in scope or v.keywords:
+                    bad('list-building helper called here', s)
+                lets, sc, tag2 = self.bind_args(c, v, scope)
+
+                def after(_sc):
+                    self.acc = (tgt.id, 'list')
+                    return nxt(dict(scope, **{tgt.id: ('acc',)}))
+                body = self.prods(c.body, sc, after, tag2, types, in_gen)
+                for var, ir in reversed(lets):
+                    body = 'QLet (PVar %s) (%s) (%s)' % (var, ir, body)
+                return body
             if isinstance(tgt, ast.Name) and isinstance(v, (ast.List, ast.Dict)) and not (v.elts if isinstance(v, ast.List) else v.keys):
                 if in_gen or self.acc is not None or tgt.id in scope:
                     bad('second accumulator %r' % tgt.id, s)
@@ -562,8 +633,8 @@ class Tr:
                     ir, t = self.expr(v.args[0], scope)
                     types.append(t)
                     return 'QEmit (%s) (%s)' % (ir, nxt(scope))
-                if isinstance(f, ast.Name) and scope.get(f.id, ('?',))[0] == 'closure' and scope[f.id][1].kind == 'stmt':
-                    c = scope[f.id][1]
+                if isinstance(f, ast.Name) and self.closure_of(scope, f.id) is not None and self.closure_of(scope, f.id).kind == 'stmt':
+                    c = self.closure_of(scope, f.id)
                     if v.keywords:
                         bad('keyword arguments to a local function', s)
                     lets, sc, tag2 = self.bind_args(c, v, scope)
@@ -674,6 +745,8 @@ def generate() -> dict:
     tree = ast.parse(src)
     V = find_class(tree, 'ModuleVistor')
     del BODIES[:]
+    MODULE_FUNCS.clear()
+    MODULE_FUNCS.update({n.name: n for n in tree.body if isinstance(n, ast.FunctionDef)})
     tra, ann, fv = translate_annotations(find_method(V, '_annotations_from_function'))
     trp, par, nv = translate_parameters(find_method(V, '_handleFunctionDef'))
     def wrap(t):
